@@ -4,13 +4,13 @@ From OCI Require Import Machine Checkers.
 From OCI.proofs Require Import Base Trace ArithOk InvKnown ChkKnown IterBase IterProt InvIterA InvIterB ChkIter.
 Open Scope N_scope.
 
-(** at a quiescent point without panics, what has been delivered is exactly what the wrapped iterator has
-    yielded: the positions [0, cursor) *)
+(** at a quiescent point without panics, as many elements have been delivered as the wrapped iterator has
+    yielded -- every wrapped iterator, fused or not (when it is fused they are the positions [0, cursor)) *)
 Lemma iter_quiescent_total e L c : IInvA e L c -> n_pending (c_trace c) = 0%Z -> has_panic (c_trace c) = false ->
   iv_total (cov e (c_trace c)) = s_cur (c_sh c).
 Proof.
-  intros A Hq Hnp. pose proof (a_til e L c A) as T. rewrite (iter_quiescent_helds e L c A Hq), app_nil_r in T.
-  apply (tl_total _ _ _ T). unfold npanic. rewrite Hnp. reflexivity.
+  intros A Hq Hnp. pose proof (a_cnt e L c A) as T. rewrite (iter_quiescent_helds e L c A Hq), app_nil_r in T.
+  apply T. unfold npanic. rewrite Hnp. reflexivity.
 Qed.
 
 Theorem iter_C10_final : forall e, iter_env e -> forall progs, wf_progs progs -> forall sched,
@@ -38,3 +38,18 @@ Proof.
   - rewrite N.eqb_refl. cbn [andb]. unfold nz_run. destruct (N.eqb_spec (N.min k (e_len e - m)) 0) as [Hz|Hz]; [reflexivity|].
     unfold mk_run. cbn [r_cnt r_val]. rewrite !N.eqb_refl. reflexivity.
 Qed.
+
+(** nothing is lost and nothing is invented: at every quiescent point of a run without panics the number
+    of elements delivered is the number of elements the wrapped iterator has yielded -- every wrapped
+    iterator, fused or not *)
+Theorem iter_delivered_count : forall e, iter_env e -> forall progs, wf_progs progs -> forall sched,
+  nowrap (c_labels (exec e (init progs) sched)) ->
+  n_pending (c_trace (exec e (init progs) sched)) = 0%Z ->
+  has_panic (c_trace (exec e (init progs) sched)) = false ->
+  iv_total (cov e (c_trace (exec e (init progs) sched))) = s_cur (c_sh (exec e (init progs) sched)).
+Proof.
+  intros e Hie progs Hp sched Hnw Hq Hnp.
+  destruct (iter_inv e Hie progs Hp sched Hnw) as [A _].
+  apply (iter_quiescent_total e _ _ A Hq Hnp).
+Qed.
+Print Assumptions iter_delivered_count.
